@@ -61,9 +61,10 @@ def _one(args):
     if overlay is None:
         return (v.kind, v.name, "skipped", why)
     repo = Repo(root, overlay=overlay)
-    rep = Report(prop=prop, tier="quick", repo=repo)
     try:
-        mod.run(repo, rep, "quick")
+        from .decide import decide
+
+        rep = decide(prop, repo, "quick")
         code = finish(rep, write=False, quiet=True)
     except AnalysisError as e:
         if v.kind == "mutant" and v.expect == "ANALYSIS-ERROR":
